@@ -363,6 +363,9 @@ class Translator:
         if op in ('udiv', 'urem'):
             c = '/' if op == 'udiv' else '%'
             return '(__verif_divcheck(%s != 0), (%s)(%s %s %s))' % (A(1), ct, A(0), c, A(1))
+        if op in ('sdiv', 'srem') and getattr(self, 'hook_arith', False) and not is_const and GetIntTypeWidth(t) == 32 \
+                and GetValueKind(ops[1]) != VK['ConstantInt']:
+            return '(__verif_divcheck(%s != 0), __verif_%s32(%s, %s))' % (A(1), op, A(0), A(1))
         if op in ('sdiv', 'srem'):
             c = '/' if op == 'sdiv' else '%'
             return '(__verif_divcheck(%s != 0), %s)' % (A(1), self.mask(t, '%s %s %s' % (self.sval(ops[0]), c, self.sval(ops[1]))))
